@@ -805,6 +805,14 @@ def donor_for(g: L.G, P: Any, p: S.Prop, misfit: bool = False) -> dict:
     kinds = list(p.donors or [])
     kind = g.pick(kinds)
     ind = None
+    if not misfit and len(set(kinds)) == 1 and kind not in ('meta_item', 'posting', 'directive', 'BLOCK_COMMENT', 'BLOCK_COMMENT_IND') and g.p(0.12):
+        # a fresh node that equals the child already in the slot (models compare by type and text): the slot must hold the new node afterwards
+        try:
+            cur = getattr(P, p.name, None)
+            if isinstance(cur, base.RawModel) and O.print_text(cur):
+                return {'k': kind, 't': O.print_text(cur)}
+        except Exception:  # noqa: BLE001
+            pass
     if kind in ('meta_item', 'posting', 'BLOCK_COMMENT_IND'):
         ind = sibling_indent(P, p)
     if kind == 'BLOCK_COMMENT' and p.name in ('raw_leading_comment', 'raw_trailing_comment') and type(P).__name__ in INDENTED_OWNERS:
